@@ -200,7 +200,45 @@ LIMITS = p_obj("ZipBombLimits", {
     "max_total_compression_ratio": p_real(), "max_entry_compression_ratio": p_real()})
 
 
+def G(fn):
+    """Contract clause guarded against shapes it was not written for: a Python exception inside a clause on changed code is a
+    failure of the sidecar to line up with the code (OUT-OF-SUBSET -> native replay decides), never an engine error."""
+    from pyvc.ops import Unsupported
+
+    def guarded(*a, **k):
+        try:
+            return fn(*a, **k)
+        except Unsupported:
+            raise
+        except (TypeError, KeyError, AttributeError, IndexError, ValueError, z3.Z3Exception) as e:
+            raise Unsupported(f"contract clause `{getattr(fn, '__name__', 'clause')}` does not fit this shape of the code "
+                              f"({type(e).__name__}: {str(e)[:120]})")
+    guarded.__name__ = getattr(fn, "__name__", "clause")
+    return guarded
+
+
+def _guard_contract(c):
+    for attr in ("requires", "hyps", "returns"):
+        f = getattr(c, attr, None)
+        if callable(f):
+            setattr(c, attr, G(f))
+    c.ensures = [(lab, G(f)) for (lab, f) in (c.ensures or [])]
+    for r in (c.raises or []):
+        if callable(getattr(r, "when", None)):
+            r.when = G(r.when)
+    for k, ls in (c.loops or {}).items():
+        if callable(getattr(ls, "inv", None)):
+            ls.inv = G(ls.inv)
+    if callable(getattr(c, "result_maker", None)):
+        c.result_maker = G(c.result_maker)
+    return c
+
+
 def contracts(reg):
+    return [_guard_contract(c) for c in _contracts(reg)]
+
+
+def _contracts(reg):
     install_models(reg)
     out = []
     loop_k, roles = entry_loop_roles()
@@ -274,6 +312,42 @@ def lemmas():
 # Interprocedural dataflow obligations over the real package AST: contracts/C11_flow.py
 from contracts.C11_flow import policy, propagation  # noqa: E402
 
+
+# --------------------------------------------------------------- executor --
+from pyvc import verify as _verify  # noqa: E402
+
+
+class C11Executor(_verify.Executor):
+    """Instances of a `@dataclass(frozen=True)` class of the module (read from the real decorator list) are immutable:
+    handing one to a helper inside a loop (`_check_entry(info, limits, source)`) does not havoc it at the loop cut."""
+
+    def _frozen_classes(self):
+        import ast as _ast
+        out = getattr(self, "_frozen", None)
+        if out is None:
+            out = set()
+            for name, c in self.module.classes.items():
+                for d in c.decorator_list:
+                    if isinstance(d, _ast.Call) and _ast.unparse(d.func).split(".")[-1] == "dataclass" and any(
+                            k.arg == "frozen" and isinstance(k.value, _ast.Constant) and k.value.value is True for k in d.keywords):
+                        if not any(isinstance(n, _ast.FunctionDef) and n.name in ("__setattr__", "__post_init__") for n in c.body):
+                            out.add(name)
+            self._frozen = out
+        return out
+
+    def mutated_refs(self, stmts, st):
+        refs = super().mutated_refs(stmts, st)
+        frozen = self._frozen_classes()
+        keep = set()
+        for r in refs:
+            o = st.heap.get(r)
+            if o is not None and o.kind == "obj" and o.cls in frozen:
+                continue
+            keep.add(r)
+        return keep
+
+
+EXECUTOR = C11Executor
 
 EXTRA = [policy, propagation]
 
